@@ -28,6 +28,7 @@ package overlay
 //@   at call Store#*: assert a-new-connection-is-cached-only-if-the-peer-caches-the-same-one-and-none-is-cached: locked && rechecked && !lastOk && callarg1 == qKey && callarg2 == fresh && negotiation.CacheState == protocol.Connection_FRESH && ((negotiation.CacheDirection == protocol.Connection_INCOMING && dir != directionIncoming) || (negotiation.CacheDirection == protocol.Connection_OUTGOING && dir == directionIncoming))
 //@   at call Store#*: ghost stored := true
 //@   ensures local-a-reused-connection-is-the-cached-entry-and-stays-open: reused ==> (err == nil && conn == lastLoaded && lastOk && conn != fresh && !stored)
+//@   ensures local-a-redundant-new-connection-is-closed-by-exactly-the-side-the-table-names: reused ==> (closedFresh == !(negotiation.CacheState == protocol.Connection_CACHED && negotiation.CacheDirection == protocol.Connection_OUTGOING))
 //@   ensures local-a-new-connection-is-returned-only-after-it-was-cached: (!reused && conn != nil) ==> (err == nil && conn == fresh && stored && !closedFresh)
 //@   ensures local-errors-return-nothing-and-cache-nothing: err != nil ==> (conn == nil && !reused && !stored)
 
